@@ -303,7 +303,12 @@ def one_pass(prop, cfg, tier, seed, scale=1, tag="main"):
                                  timeout=sdef.get("timeout", 2400))
         res["stream_s"] += dt
         if rc != 0:
-            res["errors"].append("stream %s failed (exit %d): %s" % (stream, rc, out[-1500:]))
+            crash = re.search(r"(fatal error: [^\n]*|panic: [^\n]*|WARNING: DATA RACE)", out)
+            if crash and "psaverif/internal" not in out.split(crash.group(1))[1][:400].split("\n\n")[0]:
+                res["go_fails"].append({"stream": stream, "what": "the implementation crashed the harness process: " + crash.group(1),
+                                        "case": {"crash_log": out[-3000:]}})
+            else:
+                res["errors"].append("stream %s failed (exit %d): %s" % (stream, rc, out[-1500:]))
             continue
         if race:
             for fn in sorted(os.listdir(outdir)):
